@@ -144,7 +144,7 @@ def families(tier):
                           [A.body(b) for b in A.POLYGONS]))
         for b in bodies:
             fams.append(BodyCands(b, pose, tier))
-    return fams
+    return A.with_int_mode(fams, tier)
 
 
 def run(tier, seed):
